@@ -513,6 +513,16 @@ impl Parser {
                         format!("type mismatch: this assignment will update a variable with type `{}`, which is not compatible with the original type `{}`", previous_ty.ty().unwrap(), &x.idents[0])
                     )]);
                 }
+
+                // The captured variable keeps its declared type, whatever compatible type the
+                // value written now has (`best: int? = nil` ... `modify best = 5`). Enclosing
+                // scopes match this dependency against the declaration by type.
+                let declared = previous_ty.ty().unwrap().as_ref();
+                if !declared.is_directly_callback_variable() {
+                    x.idents[0].set_type_no_link(Cow::Owned(TypeLayout::CallbackVariable(
+                        Box::new(declared.clone()),
+                    )));
+                }
             }
         }
 
